@@ -91,4 +91,32 @@ def nearIncidence (A B : Flat) : Bool :=
   let tol := max 1 (maxAbs A B / 70368744177664)      -- 2^46: 64 ulps of the largest coordinate
   nearOverlap tol A B || nearOverlap tol B A || nearVertexOnSeg tol A B || nearVertexOnSeg tol B A
 
+/-- like `nearLine`, but the point is *not exactly* on the line of `s` (a genuine rounding-distance incidence) -/
+def nearLineInexact (tol : Int) (s : Seg) (p : Pt) : Bool := nearLine tol s p && det s.p s.q p != 0
+
+/-- some (near-)degenerate contact is *inexact*: a vertex within rounding distance of a segment's interior without being
+exactly on it, or two segments collinear to rounding over a positive length without being exactly collinear.  Exact
+incidences (determinant 0) are decided exactly by the robust predicates and are not counted. -/
+def inexactIncidence (A B : Flat) : Bool :=
+  let tol := max 1 (maxAbs A B / 70368744177664)
+  let ov (A B : Flat) : Bool :=
+    A.segs.any fun s => B.segs.any fun t =>
+      nearLine tol s t.p && nearLine tol s t.q && (det s.p s.q t.p != 0 || det s.p s.q t.q != 0) &&
+      (let a := s.dotv s.p t.p; let b := s.dotv s.p t.q
+       let lo := min a b; let hi := max a b
+       decide (lo < s.sqLen) && decide (hi > 0) && decide (lo < hi))
+  let vs (A B : Flat) : Bool :=
+    (flatVertices A).any fun v => B.segs.any fun t =>
+      v != t.p && v != t.q && nearLineInexact tol t v &&
+      (let a := t.dotv t.p v; decide (0 ≤ a) && decide (a ≤ t.sqLen))
+  ov A B || ov B A || vs A B || vs B A
+
+/-- two segments overlap collinearly, exactly, over a positive length -/
+def exactOverlap (A B : Flat) : Bool :=
+  A.segs.any fun s => B.segs.any fun t =>
+    det s.p s.q t.p == 0 && det s.p s.q t.q == 0 &&
+    (let a := s.dotv s.p t.p; let b := s.dotv s.p t.q
+     let lo := min a b; let hi := max a b
+     decide (lo < s.sqLen) && decide (hi > 0) && decide (lo < hi))
+
 end Driver.Flatten
